@@ -1,9 +1,19 @@
-// C03 (string level): StringUtils::EscapeHTMLSpecialChars on every string of L code units (L concrete per query)
-//   h_safe   : no < > " ' at an arbitrary output position; every & of the output starts one of the five entities;
-//              stream did not overflow (CAP = 6*L+1), the unit already in the stream is preserved
-//   h_decode : decode(escape(s)) == decode(s) for the single-pass reference decoder below
+// C03 (string level): StringUtils::EscapeHTMLSpecialChars on every string of L code units (L concrete per query,
+// contents fully symbolic).  Reads outside [str, str+L) are caught by CBMC on the exact-size vf_buf in every harness.
+//
+// A. the real stream protocol with the FixedStream stand-in (buffer read back through First()/Length()); small L
+//   h_safe   : no < > " ' at an arbitrary (symbolic index) output position; every & of the output starts one of the
+//              five entities; no overflow with CAP = 6*L+1; the unit already in the stream is preserved
+//   h_decode : decode(escape(s)) == decode(s), single-pass reference decoder on both sides
 //   h_idem   : escape(escape(s)) == escape(s)
-// Reads outside [str, str+L) are caught by CBMC on the exact-size vf_buf.
+// B. the same clauses stated on the sequence of units the escaper hands to the stream (the escaper only ever calls
+//    Stream::Write; a stream appends).  The observers keep O(1) state, which is what lets the solver reach L = 8.
+//   h_lang   : the emitted sequence is in (plain | &amp; | &lt; | &gt; | &quot; | &apos;)*, plain = any unit but & < > " '
+//              (<=> no special anywhere and every & starts an entity)
+//   h_dec    : entity-decoding the emitted sequence on the fly gives decode(s) (reference decoder on the input)
+//   h_len    : L <= number of emitted units <= 6*L   (=> CAP = 6*L+1 never overflows behind a one-unit prefix)
+//   h_fix    : every t in the language of h_lang with |t| = L is a fixed point: escape(t) == t
+//              (with h_lang: escape(escape(s)) == escape(s) whenever escape(s) has at most L units)
 #include "fixed_stream.hpp"
 #include "StringUtils.hpp"
 #include "vf.h"
@@ -17,16 +27,8 @@ using namespace Qentem;
 typedef CHAR C;
 enum { CAP = 6 * L + 1 };
 typedef FixedStream<C, CAP> FS;
-// destination of the second escape in h_idem: stores nothing, compares what it receives with the expected text in lockstep.
-// Harness-local type => the second escaper is a separate instantiation and its Write loop lives in this file (own unwind bounds).
-struct CmpStream {
-    using CharType = C;
-    const C *expect; unsigned n; unsigned pos{0}; bool ok{true};
-    CmpStream(const C *e, unsigned len) : expect(e), n(len) {}
-    void operator+=(C c) { if (pos >= n || expect[pos] != c) ok = false; ++pos; }
-    void Write(const C *s, SizeT len) { SizeT i = 0; while (i < len) { *this += s[i]; ++i; } }
-};
 
+// ---------------------------------------------------------------------------------------------------------------
 // reference: number of units of the entity that starts at s[i] (0 = none), *d = the character it denotes.
 // Written independently of the implementation (no shared tables, exact unit-by-unit comparison).
 static inline unsigned ent(const C *s, unsigned n, unsigned i, C *d) {
@@ -55,6 +57,66 @@ static inline unsigned ent(const C *s, unsigned n, unsigned i, C *d) {
     }
 DECODER(dec_in)    // over the L input units
 DECODER(dec_out)   // over the <= 6*L output units
+
+// ---------------------------------------------------------------------------------------------------------------
+// Observer streams (harness types for the Stream_T parameter).
+
+// Recogniser of (plain | entity)* over the emitted units, optionally decoding and comparing in lockstep with `expect`.
+//   states: 0 idle | 1 "&" | 2 "&a" | 3 "&am" | 5 "&ap" | 6 "&apo" | 8 "&l","&g" | 9 entity body complete, ';' due
+//           12 "&q" | 13 "&qu" | 14 "&quo" | 16 reject (sticky)
+struct LangStream {
+    using CharType = C;
+    unsigned st{0};
+    C pend{0};                                        // character denoted by the entity being read
+    const C *expect{nullptr}; unsigned n{0}, k{0}; bool same{true};
+    void emit(C d) { if (expect != nullptr) { if (k >= n || expect[k] != d) same = false; ++k; } }
+    void operator+=(C c) {
+        unsigned nx = 16;
+        if (st == 0) {
+            if (c == C('&')) nx = 1;
+            else if (c == C('<')) nx = 16;
+            else if (c == C('>')) nx = 16;
+            else if (c == C('"')) nx = 16;
+            else if (c == C('\'')) nx = 16;
+            else { nx = 0; emit(c); }
+        } else if (st == 1) {
+            if (c == C('a')) nx = 2;
+            else if (c == C('l')) { nx = 8; pend = C('<'); }
+            else if (c == C('g')) { nx = 8; pend = C('>'); }
+            else if (c == C('q')) { nx = 12; pend = C('"'); }
+        } else if (st == 2) {
+            if (c == C('m')) { nx = 3; pend = C('&'); }
+            else if (c == C('p')) { nx = 5; pend = C('\''); }
+        } else if (st == 3)  { if (c == C('p')) nx = 9; }
+        else if (st == 5)    { if (c == C('o')) nx = 6; }
+        else if (st == 6)    { if (c == C('s')) nx = 9; }
+        else if (st == 8)    { if (c == C('t')) nx = 9; }
+        else if (st == 12)   { if (c == C('u')) nx = 13; }
+        else if (st == 13)   { if (c == C('o')) nx = 14; }
+        else if (st == 14)   { if (c == C('t')) nx = 9; }
+        else if (st == 9)    { if (c == C(';')) { nx = 0; emit(pend); } }
+        st = nx;
+    }
+    void Write(const C *s, SizeT len) { SizeT i = 0; while (i < len) { *this += s[i]; ++i; } }
+};
+// counts, stores nothing
+struct CountStream {
+    using CharType = C;
+    unsigned n{0};
+    void operator+=(C) { ++n; }
+    void Write(const C *, SizeT len) { n += len; }
+};
+// stores nothing, compares what it receives with the expected text in lockstep
+struct CmpStream {
+    using CharType = C;
+    const C *expect; unsigned n; unsigned pos{0}; bool ok{true};
+    CmpStream(const C *e, unsigned len) : expect(e), n(len) {}
+    void operator+=(C c) { if (pos >= n || expect[pos] != c) ok = false; ++pos; }
+    void Write(const C *s, SizeT len) { SizeT i = 0; while (i < len) { *this += s[i]; ++i; } }
+};
+
+// ---------------------------------------------------------------------------------------------------------------
+// A. FixedStream
 
 extern "C" void h_safe() {
     const C *s = vf_buf<C>(L);
@@ -99,5 +161,48 @@ extern "C" void h_idem() {
     esc2(o2, o1.First(), o1.Length());
     vf_assert(o2.ok, 2);                       // every unit of the second output equals the first output at the same position
     vf_assert(o2.pos == o1.Length(), 3);       // and the lengths agree
+    vf_witness();
+}
+
+// ---------------------------------------------------------------------------------------------------------------
+// B. observers
+
+extern "C" void h_lang() {
+    const C *s = vf_buf<C>(L);
+    LangStream out;
+    StringUtils::EscapeHTMLSpecialChars(out, s, SizeT(L));
+    vf_assert(out.st == 0, 1);
+    vf_witness();
+}
+
+extern "C" void h_dec() {
+    const C *s = vf_buf<C>(L);
+    C a[L + 1];
+    const unsigned na = dec_in(s, L, a);
+    LangStream out; out.expect = a; out.n = na;
+    StringUtils::EscapeHTMLSpecialChars(out, s, SizeT(L));
+    vf_assert(out.st == 0, 1);                 // (decoding is only defined by the observer on its own language)
+    vf_assert(out.same, 2);
+    vf_assert(out.k == na, 3);
+    vf_witness();
+}
+
+extern "C" void h_len() {
+    const C *s = vf_buf<C>(L);
+    CountStream out;
+    StringUtils::EscapeHTMLSpecialChars(out, s, SizeT(L));
+    vf_assert(out.n >= L, 1);
+    vf_assert(out.n <= 6 * L, 2);
+    vf_witness();
+}
+
+extern "C" void h_fix() {
+    const C *t = vf_buf<C>(L);
+    LangStream v; v.Write(t, SizeT(L));
+    vf_assume(v.st == 0);                      // t is an arbitrary word of the output language
+    CmpStream out(t, L);
+    StringUtils::EscapeHTMLSpecialChars(out, t, SizeT(L));
+    vf_assert(out.ok, 1);
+    vf_assert(out.pos == L, 2);
     vf_witness();
 }
